@@ -155,6 +155,7 @@ func (b *Broker) ConnectInOut(
 	the other mustn't linger or be connected later on its own. */
 	ctx, cancel := context.WithCancel(ctx)
 	defer cancel()
+	ctx = context.WithValue(ctx, pairCancelKey{}, cancel)
 	var wg sync.WaitGroup
 	wg.Add(2)
 	go func() {
@@ -169,6 +170,10 @@ func (b *Broker) ConnectInOut(
 	}()
 	wg.Wait()
 }
+
+// pairCancelKey is the context key under which ConnectInOut stores the
+// function which stops both sides of its connection.
+type pairCancelKey struct{}
 
 // isBidirKey returns true if key was made by ConnectInOut.
 func (b *Broker) isBidirKey(key string) bool {
@@ -191,6 +196,17 @@ func (b *Broker) connect(
 	defer verifPoint(ctx, "done", dir, key)
 	b.mu.Lock()
 	defer b.mu.Unlock()
+
+	/* If we're one side of a bidirectional connection and don't get
+	connected, the other side mustn't be, either.  This happens before b
+	is unlocked, lest the other side sneak in in the meantime. */
+	var connected bool
+	defer func() {
+		f, ok := ctx.Value(pairCancelKey{}).(context.CancelFunc)
+		if ok && !connected {
+			f()
+		}
+	}()
 
 	/* Make sure we're not no longer accepting connections. */
 	if b.noMore {
@@ -305,6 +321,7 @@ func (b *Broker) connect(
 	}
 
 	/* Looks like we're all set. */
+	connected = true
 	cctx, cancel := context.WithCancel(ctx)
 	*cancelUs = cancel
 
